@@ -122,6 +122,40 @@ def main():
         json.dump(meta, open(os.path.join(d, "meta.json"), "w"), indent=1)
         print("kept as", d)
         return
+    if a[0] == "rebase":
+        # re-create the patches that no longer apply to /repo's HEAD (a later fix: commit touched
+        # neighbouring lines) with a 3-way merge, keep the previous version, confirm again
+        head = subprocess.run(["git", "-C", "/repo", "log", "--format=%h", "-1"], stdout=subprocess.PIPE, text=True).stdout.strip()
+        for name in sorted(n for n in os.listdir(SEEDED) if os.path.isdir(os.path.join(SEEDED, n))):
+            d = os.path.join(SEEDED, name)
+            wt = worktree("rebase-" + name)
+            try:
+                rc, _ = sh(["git", "apply", "--check", os.path.join(d, "patch.diff")], cwd=wt)
+                if rc == 0:
+                    continue
+                rc, out = sh(["git", "apply", "--3way", os.path.join(d, "patch.diff")], cwd=wt)
+                if rc != 0:
+                    print(name, "NEEDS A MANUAL REBASE:", out[-300:].replace("\n", " "))
+                    continue
+                diff = subprocess.run(["git", "diff", "HEAD"], cwd=wt, stdout=subprocess.PIPE, text=True).stdout
+                rc, out = sh("go build ./...", cwd=wt)
+                if rc != 0:
+                    print(name, "rebased patch does not build"); continue
+                meta = json.load(open(os.path.join(d, "meta.json")))
+                prev = meta.get("patch_base", "d597d54")
+                keep = os.path.join(d, "patch.base-%s.diff" % prev)
+                if not os.path.exists(keep):
+                    shutil.copy(os.path.join(d, "patch.diff"), keep)
+                open(os.path.join(d, "patch.diff"), "w").write(diff)
+            finally:
+                drop(wt)
+            ok, rec = confirm(d)
+            meta = json.load(open(os.path.join(d, "meta.json")))
+            meta["confirmed"], meta["patch_base"] = rec, head
+            meta["rebased"] = "patch.diff was rebased (3-way) onto /repo %s because a later fix: commit touched neighbouring lines; earlier versions are kept as patch.base-<commit>.diff; re-confirmed after rebasing" % head
+            json.dump(meta, open(os.path.join(d, "meta.json"), "w"), indent=1)
+            print(name, "rebased onto", head, "confirmed" if ok else "NOT CONFIRMED", {k: v for k, v in rec.items() if k in ("demo_without_change", "demo_with_change", "existing_tests_with_change")})
+        return
     if a[0] == "run":
         allp = "--all" in a
         tier = "quick"
